@@ -11,7 +11,7 @@ from ..mutants import Mut
 from ..rules import canv
 from ..rules.defuse import DefUse
 from ..rules.exc import ExcEngine
-from ..rules.util import callee_name, cfg_of, nodes_where
+from ..rules.util import callee_name, cfg_of, node_exprs, nodes_where
 from ..tables import CANV_EXCEPTIONS
 from . import c02
 
@@ -425,6 +425,77 @@ def rule_charset_pad(ctx: Ctx) -> RuleResult:
     return rr
 
 
+def rule_palette_first(ctx: Ctx) -> RuleResult:
+    """'every cell shows the palette entry registered for its attribute name': None is a palette name like any other
+    (Screen.__init__ registers it, applications re-register it to colour unattributed text).  draw_screen's
+    attr_to_escape() therefore asks the palette first: every return other than the palette entry itself lies on the
+    false edge of the `a in self._pal_escape` test.  Seed C17-r8b answered None with default/default ahead of the
+    lookup: a palette that redefines None was ignored for every unattributed cell."""
+    p = ctx.p
+    rr = RuleResult("ORDER", "C17.24", "attr_to_escape() consults the palette before it special-cases any attribute value (None is a registered palette name)", floor=2)
+    cands = [f for q, f in p.functions.items() if q.endswith("draw_screen.<locals>.attr_to_escape") and f.module.name == "urwid.display._raw_display_base"]
+    if not cands:
+        raise AnalysisError("draw_screen: the local function attr_to_escape was not found")
+    fi = cands[0]
+    cfg = cfg_of(fi)
+    prm = fi.params[0]
+    tests = [t for t in cfg.nodes if t.kind == "test" and isinstance(t.ast, ast.Compare) and isinstance(t.ast.ops[0], ast.In) and isinstance(t.ast.left, ast.Name) and t.ast.left.id == prm and "_pal_escape" in ast.unparse(t.ast.comparators[0])]
+    if not tests:
+        raise AnalysisError("attr_to_escape: the palette lookup test (`a in self._pal_escape`) was not found")
+    for r in [n for n in cfg.nodes if n.kind == "return"]:
+        from_palette = "_pal_escape" in ast.unparse(r.ast.value) if r.ast.value is not None else False
+        after = any(r not in ExcEngine._reach_without_edge(cfg, t, "F") for t in tests)
+        rr.inst(f"{norm(r.ast, 50)}", True, {"return": norm(r.ast, 60), "palette_entry": from_palette, "after_failed_lookup": after})
+        if not from_palette and not after:
+            rr.add(finding("ORDER", fi, r.ast, f"`{norm(r.ast, 60)}` answers before the palette was asked: an attribute name that is registered in the palette (None is - Screen.__init__ registers it and applications redefine it) is painted with this fallback instead of its palette entry", construct="attr_to_escape: fallback before the palette lookup"))
+    return rr
+
+
+def rule_innermost_tag(ctx: Ctx) -> RuleResult:
+    """'each character carries the innermost tag around it': a tuple (tag, markup) replaces the enclosing attribute
+    for everything inside it - also when the tag is None (that is how markup switches back to the default inside a
+    tagged run).  In the tuple branch of _tagmarkup_recurse() the attribute handed to the recursive call is tm[0] on
+    every path: no definition of that name reaching the call is the function's own parameter (the enclosing
+    attribute).  Seed C17-r8a kept the enclosing attribute when the tag was None: ('warn', ['ab', (None, 'cd')])
+    came out as one run of 'warn'."""
+    from ..rules.defuse import DefUse
+
+    p = ctx.p
+    rr = RuleResult("FLOW", "C17.23", "the tuple branch of _tagmarkup_recurse recurses with the tuple's own tag on every path (None included), never with the enclosing attribute", floor=1)
+    fi = p.func("urwid.util._tagmarkup_recurse")
+    du = DefUse(fi)
+    cfg = du.cfg
+    tm, enclosing = fi.params[0], fi.params[1]
+    tup = [t for t in cfg.nodes if t.kind == "test" and isinstance(t.ast, ast.Call) and callee_name(t.ast) == "isinstance" and len(t.ast.args) == 2 and isinstance(t.ast.args[0], ast.Name) and t.ast.args[0].id == tm and "tuple" in ast.unparse(t.ast.args[1])]
+    if not tup:
+        raise AnalysisError("_tagmarkup_recurse: the isinstance(tm, tuple) branch was not found")
+    from ..rules.exc import ExcEngine
+
+    n_calls = 0
+    for cn in cfg.nodes:
+        if any(cn in ExcEngine._reach_without_edge(cfg, t, "T") for t in tup):
+            continue
+        for e in node_exprs(cn):
+            for c in ast.walk(e):
+                if not (isinstance(c, ast.Call) and callee_name(c) == fi.name and len(c.args) >= 2):
+                    continue
+                n_calls += 1
+                a = c.args[1]
+                srcs = []
+                if isinstance(a, ast.Name):
+                    for val, how, dn in du.reaching(a.id, cn):
+                        srcs.append("parameter" if how == "parameter" else (ast.unparse(val) if isinstance(val, ast.AST) else str(how)))
+                else:
+                    srcs.append(ast.unparse(a))
+                ok = bool(srcs) and all(s_ == f"{tm}[0]" for s_ in srcs)
+                rr.inst(f"tuple branch: {norm(c, 50)}", True, {"call": norm(c, 60), "attribute_argument_from": srcs})
+                if not ok:
+                    rr.add(finding("FLOW", fi, c, f"`{norm(c, 60)}` in the tuple branch can be given {srcs} as attribute: only {tm}[0] - the tuple's own tag, None included - is the innermost tag; with the enclosing attribute kept for a None tag, text inside (None, ...) nested under a tagged tuple stays tagged and an AttrMap({{None: ...}}) never reaches it", construct="tuple branch recurses with the enclosing attribute"))
+    if not n_calls:
+        raise AnalysisError("_tagmarkup_recurse: no recursive call in the tuple branch")
+    return rr
+
+
 def run(ctx: Ctx):
     r6 = c02.rule_cut_attr(ctx)
     r6.clause = "C17.6"
@@ -462,7 +533,7 @@ def run(ctx: Ctx):
     r21 = _runpos.run_runpos_returns(ctx.p, "C17.21", ["urwid.util._tagmarkup_recurse"], floor=1)
     r22 = _c04.rule_repaint(ctx)
     r22.clause = "C17.22"
-    return [r17, r18, r20, r21, r22, rule_charset_pad(ctx), rule_palette_order(ctx), rule_palette_notify(ctx), rule_palette_cache(ctx), rule_palette_total(ctx), rule_attrmap(ctx), r6, r7, r8, r9, r10, r11, r12, rule_palette_depth_index(ctx), _sentinel(ctx), rule_markup_index_guard(ctx), rule_desc_tokens(ctx)]
+    return [r17, r18, r20, r21, r22, rule_charset_pad(ctx), rule_palette_order(ctx), rule_palette_notify(ctx), rule_palette_cache(ctx), rule_palette_total(ctx), rule_attrmap(ctx), r6, r7, r8, r9, r10, r11, r12, rule_palette_depth_index(ctx), _sentinel(ctx), rule_markup_index_guard(ctx), rule_desc_tokens(ctx), rule_innermost_tag(ctx), rule_palette_first(ctx)]
 
 
 _CM = "urwid/display/common.py"
